@@ -36,39 +36,39 @@ type rxChunk struct {
 
 // link is one connection to the node as a peer sees it.
 type link struct {
-	e        *env
-	id       int
-	ep       *epCfg
-	epIdx    int
-	name     string
-	datagram bool
-	conn     *world.Conn       // stream transports
-	uconn    *world.UDPConn    // peer-dialled UDP (node is a UDP server)
-	pconn    *world.PacketConn // peer packet socket (node is a UDP client / broadcast)
-	nodePort int
-	sys      byte
-	comp     byte
-	v2       bool
-	seq      byte
-	nextIdx  uint32
-	sent     []sentItem // owner: the sending task
-	rx       []rxChunk  // owner: the receiving task
-	rxEnd    string
-	rxDone   bool
-	txErr    error
-	opened   time.Duration
-	peerClosed bool // the peer ended the connection (close / reset)
-	peerReset  bool
-	ordinal  int // k-th link of its endpoint
-	onData   func()
-	txMu     sync.Mutex // guards the sender-side state when several tasks send on one link
-	hbSent   []sentItem
-	keptAlive bool
-	rxPaused  bool
-	apCount   int
-	nodeGone  bool
-	closeSeen bool
-	lastSend  time.Duration
+	e           *env
+	id          int
+	ep          *epCfg
+	epIdx       int
+	name        string
+	datagram    bool
+	conn        *world.Conn       // stream transports
+	uconn       *world.UDPConn    // peer-dialled UDP (node is a UDP server)
+	pconn       *world.PacketConn // peer packet socket (node is a UDP client / broadcast)
+	nodePort    int
+	sys         byte
+	comp        byte
+	v2          bool
+	seq         byte
+	nextIdx     uint32
+	sent        []sentItem // owner: the sending task
+	rx          []rxChunk  // owner: the receiving task
+	rxEnd       string
+	rxDone      bool
+	txErr       error
+	opened      time.Duration
+	peerClosed  bool // the peer ended the connection (close / reset)
+	peerReset   bool
+	ordinal     int // k-th link of its endpoint
+	onData      func()
+	txMu        sync.Mutex // guards the sender-side state when several tasks send on one link
+	hbSent      []sentItem
+	keptAlive   bool
+	rxPaused    bool
+	apCount     int
+	nodeGone    bool
+	closeSeen   bool
+	lastSend    time.Duration
 	unblockedAt time.Duration
 }
 
